@@ -9,6 +9,10 @@ CHECKS = {
     technique="TLA+ spec (Splitters.tla) model-checked exhaustively by TLC; TLC-emitted vectors replayed into the real splitters; recorded outcomes trace-validated by TLC (TraceSplitters.tla)",
     text="TLC proves every clause of C01 on the specified outcome for every configuration within the cfg constants (n<=8/10, fh subset of 1..4, window<=4/5, step<=3/4, initial window, both start modes, cutoff sets, train/test sizes); the real splitters are replayed on that complete enumeration and compared for equality with the specified outcome, and random larger configurations (n<=120/300) are validated as traces against the same specification with every clause re-evaluated on the observed splits.",
     ref="4/C01", note="Trusts TLC, the compat shim emulating removed numpy/pandas/sklearn names, and that the documented reading of start_with_window=False / SingleWindowSplitter (DESIGN 4/C01 Reading) is the intended one."),
+ "C02": dict(
+    technique="TLA+ spec (Horizon.tla) model-checked exhaustively by TLC; TLC-emitted vectors replayed into the real ForecastingHorizon; recorded observations trace-validated by TLC (TraceHorizon.tla)",
+    text="TLC proves the C02 clauses (stored sorted, absolute = cutoff + steps, round trip, partition at step 0, predicates, indexer = steps - 1, rejects-not-coerces) on the specification for every ordered duplicate-free selection of up to 3/4 steps from -3..4 in every container kind, relative and absolute, several cutoffs, and every injected fault (duplicate, fractional, unsupported type); the real ForecastingHorizon / check_fh is replayed on that complete enumeration and compared for equality, and random horizons with |step|,|cutoff| up to 1e6 are validated as traces with every clause re-evaluated on the observed values.",
+    ref="4/C02", note="Trusts TLC and the compat shim (pd.Int64Index emulated by pd.Index; non-integer plain Index never generated). Integral floats and bools are not treated as faults (DESIGN 4/C02 Reading)."),
 }
 
 NA_REASON = "check not built yet in this round; the TLA+ module for it is planned in DESIGN.md section 4 (will be claimed once its check runs clean on the unchanged tree)"
